@@ -129,6 +129,14 @@ fn session(sc: Value, log: Arc<Mutex<Vec<Value>>>) {
 			return;
 		}
 	};
+	{
+		// what the handle reports before the audio thread has seen the sound
+		let (pos, mut px) = scaled(handle.position(), sr as f64);
+		if px == 1 && (handle.position() * sr as f64 - pos as f64).abs() < 1e-6 {
+			px = 0;
+		}
+		ev(json!({"a": "made", "pos": pos, "px": px}));
+	}
 	let info = MockInfoBuilder::new().build();
 	let dt = 1.0 / dev as f64;
 	let empty = vec![];
